@@ -12,7 +12,7 @@ Oracle: a direct Python reading of the property sentence (independent of go/buil
 model); in the thorough tier `go list -tags mage` as a third opinion.
 End-to-end sample with the real binary: `mage -l`, the magefiles-subdirectory layout with
 os.Getwd(), and the executable format of `-compile -goos/-goarch` output."""
-import json, os, re, shutil
+import json, os, re, shutil, time
 from vlib import *
 import projlib
 
@@ -473,19 +473,24 @@ KNOWN_F24 = [
 
 
 # ---------------------------------------------------------------- third opinion (thorough): go list
-def go_list(path, goos, goarch, tag, cgo_enabled):
-    extra = {"GOOS": goos, "GOARCH": goarch, "GOFLAGS": "-mod=mod"}
+def go_list(path, goos, goarch, tag, cgo_enabled, goflags="-mod=mod"):
+    """the go tool's own listing with exactly the tag list [tag] (given explicitly, so that a -tags in GOFLAGS does not count)"""
+    extra = {"GOOS": goos, "GOARCH": goarch, "GOFLAGS": goflags}
     e = goenv(extra)
     e.pop("CGO_ENABLED", None)
     if cgo_enabled != "":
         e["CGO_ENABLED"] = cgo_enabled
-    cmd = ["go", "list", "-f", "{{range .GoFiles}}{{.}}\n{{end}}"] + (["-tags", tag] if tag else []) + ["."]
+    cmd = ["go", "list", "-f", "{{range .GoFiles}}{{.}}\n{{end}}", "-tags=" + tag, "."]
     rc, out, err = sh(cmd, cwd=path, env=e, timeout=120)
     if rc != 0:
         if "build constraints exclude all Go files" in err or "no Go files" in err:
             return set()
         return None
     return {l for l in out.splitlines() if l.strip()}
+
+
+# what the go tool (not mage) prints when its build cache is being removed underneath it; used only to decide to TRY AGAIN
+GO_CACHE_TROUBLE = re.compile(r"go-build/[0-9a-f]{2}/[0-9a-f]{20,}-[ad]\b.*no such file or directory|DO NOT USE - main build pseudo-cache|could not import .*open .*go-build")
 
 
 # ---------------------------------------------------------------- end-to-end sample
@@ -877,7 +882,15 @@ exec go "$@"
             env["C10_GOCOUNT"] = os.path.join(os.path.dirname(log), "gocount")
             env["C10_GOPLAN"] = j.get("goplan", "")
         r = mg.run(cwd, pre + args, env=env, timeout=timeout, cache=cache)
-        if r["rc"] != 0:          # the go tool occasionally fails under heavy load (build cache races): once more before believing it
+        tries = 2                 # the go tool occasionally fails under heavy load, and a fault plan adds one failure of its own:
+        while r["rc"] != 0 and tries > 0:     # up to two more attempts before believing a failure
+            tries -= 1
+            if GO_CACHE_TROUBLE.search(r["err"]) and not getattr(mage, "patience_used", 0) > 40:
+                # the go tool lost an entry of its OWN build cache (somebody is cleaning ~/.cache/go-build while we run): that is
+                # not mage's doing; wait a little and grant more attempts (bounded for the whole run)
+                mage.patience_used = getattr(mage, "patience_used", 0) + 1
+                time.sleep(2)
+                tries += 1
             r = mg.run(cwd, pre + args, env=env, timeout=timeout, cache=cache)
         r["go_calls"] = []
         if log and os.path.exists(log):
@@ -1285,18 +1298,39 @@ def run_invoke_sequences(ctx, binp, host, nrelease):
             return proj, json.loads(out.splitlines()[0])
         except Exception:
             raise BuildError("unitrun (invoke sequence) failed: rc=%d %s" % (rc, err[-1500:]))
-    n = 0
-    for states, (proj, res) in zip(jobs, pmap(one, jobs, jobs=4)):
+    def judge(states, res):
         for k, (st, a) in enumerate(zip(states, res)):
-            n += 1
             d = {"id": -1, "files": sorted(st, key=lambda f: f["name"].encode()), "mixed": False}
             want = sorted(f["ident"].lower() for f in st if f["name"] in expected_files(d, host[0], host[1], False, False, nrelease)[0])
             got = sorted(projlib.parse_list(a["stdout"])["targets"])
             ok = (a["rc"] != 0 and not got) if not want else (a["rc"] == 0 and got == want)
-            if not ok and len(ctx.violations) < 8:
-                ctx.violation({"kind": "oracle", "clause": "call %d of mage.Invoke(List) in one process lists %s (rc=%d), the files as they are now %s define %s" % (
-                    k + 1, got, a["rc"], [(f["name"], expr_text(f["expr"]) if f["expr"] else None) for f in st], want)},
-                    case={"invoke_seq": {"states": states[:k + 1]}, "observed": res[:k + 1]})
+            if not ok:
+                return k, "call %d of mage.Invoke(List) in one process lists %s (rc=%d), the files as they are now %s define %s" % (
+                    k + 1, got, a["rc"], [(f["name"], expr_text(f["expr"]) if f["expr"] else None) for f in st], want)
+        return None, None
+    n = 0
+    for states, (proj, res) in zip(jobs, pmap(one, jobs, jobs=4)):
+        n += len(res)
+        k, bad = judge(states, res)
+        if bad:
+            # the confirmation rule of the end-to-end part: a defect of mage shows again in a fresh repetition, a hiccup of the go tool does not
+            again = []
+            for rep_ in range(8):
+                r2 = one(states)[1]
+                b2 = judge(states, r2)[1]
+                if b2 and any(GO_CACHE_TROUBLE.search(x["stderr"]) for x in r2) and rep_ < 7:
+                    time.sleep(3)        # the go tool's own cache is being cleaned underneath it: not a repetition that counts
+                    continue
+                again.append(b2)
+                if len(again) == 2:
+                    break
+            if any(again):
+                if len(ctx.violations) < 8:
+                    ctx.violation({"kind": "oracle", "clause": bad, "reproduced": "%d of 2 fresh repetitions" % len([a for a in again if a])},
+                                  case={"invoke_seq": {"states": states[:k + 1]}, "observed": res[:k + 1]})
+            else:
+                ctx.log("UNCONFIRMED deviation of an Invoke sequence (not reproduced in 2 fresh repetitions): " + bad[:200] + " | " + res[k]["stderr"][-300:])
+                ctx.coverage.setdefault("unconfirmed_deviations", []).append(bad[:300])
     ctx.coverage["invoke_sequence_calls"] = n
     return n
 
@@ -1443,8 +1477,9 @@ def run(ctx):
         def third_opinion(qd):
             q, d = qd
             plat = forced_platform(host, q["goos"], q["goarch"])
-            a = go_list(d["path"], plat[0], plat[1], "mage", "")
-            b = go_list(d["path"], plat[0], plat[1], "", "")
+            gf = "-mod=mod" if d["id"] % 2 else "-mod=mod -tags=integration,tools"      # a CI job's GOFLAGS: both listings under the same environment
+            a = go_list(d["path"], plat[0], plat[1], "mage", "", gf)
+            b = go_list(d["path"], plat[0], plat[1], "", "", gf)
             if a is None or b is None:
                 return None
             return (a - b, expected_files(d, plat[0], plat[1], should_cgo("", plat, host, supported), False, nrelease)[0])
